@@ -62,8 +62,8 @@ func (p *c12) source(c fw.Case) (name, src string) {
 		src := g.Program(r.Range(1, 4))
 		// package-level declarations that come after the functions using them (loaded on demand in the middle of
 		// a function body), multi-name specs sharing a name with a local
-		late := "\nfunc useLate() int {\n\tlateB := \"local\"\n\t_ = lateB\n\treturn lateA + len(lateC) + lateK + int(lateT(2)) + lateF()\n}\n"
-		src = strings.Replace(src, "func main() {", late+"\nfunc main() {\n\t_ = useLate()", 1)
+		late := "\nfunc useRedecl() int {\n\tvar e error\n\tn, e := strconv.Atoi(\"7\")\n\tm, e := strconv.Atoi(\"8\")\n\t_ = e\n\tfor i, e := 0, error(nil); i < 1; i++ {\n\t\t_ = e\n\t}\n\treturn n + m\n}\n\nfunc useLate() int {\n\tlateB := \"local\"\n\t_ = lateB\n\treturn lateA + len(lateC) + lateK + int(lateT(2)) + lateF()\n}\n"
+		src = strings.Replace(src, "func main() {", late+"\nfunc main() {\n\t_ = useLate() + useRedecl()", 1)
 		src += "\nvar lateA, lateB = 3, 4\n\nvar lateC = \"late\"\n\nconst lateK, lateL = 7, \"l\"\n\ntype lateT int\n\nfunc lateF() int { return lateB + len(lateL) }\n"
 		return "main.xgo", src
 	case "sugar":
@@ -308,6 +308,18 @@ func (p *c12) Run(c fw.Case, r *fw.Rec) {
 			gg[goff(id.Pos())] = rec{false, objDesc(o), id.Name}
 		}
 	}
+	// syntactic context of identifiers (for site naming)
+	ctxOf := map[int]string{}
+	goast.Inspect(gf, func(n goast.Node) bool {
+		if as, ok := n.(*goast.AssignStmt); ok && as.Tok == gotoken.DEFINE {
+			for _, l := range as.Lhs {
+				if id, ok := l.(*goast.Ident); ok && id.Name != "_" {
+					ctxOf[goff(id.Pos())] = ":left-of-define"
+				}
+			}
+		}
+		return true
+	})
 	offs := make([]int, 0, len(gg))
 	for o := range gg {
 		offs = append(offs, o)
@@ -326,9 +338,9 @@ func (p *c12) Run(c fw.Case, r *fw.Rec) {
 			if g.name == "_" {
 				what = "blank-" + what
 			}
-			r.Fail("identifier-not-recorded:"+what+"-of-"+strings.Fields(g.desc)[0], "go/types records %s `%s` (%s) at offset %d (line %d); typesutil records nothing for it", what, g.name, g.desc, o, 1+strings.Count(src[:o], "\n"))
+			r.Fail("identifier-not-recorded:"+what+"-of-"+strings.Fields(g.desc)[0]+ctxOf[o], "go/types records %s `%s` (%s) at offset %d (line %d); typesutil records nothing for it", what, g.name, g.desc, o, 1+strings.Count(src[:o], "\n"))
 		case x.def != g.def:
-			r.Fail("def-use-confusion:"+strings.Fields(g.desc)[0], "identifier `%s` at offset %d: go/types def=%v, typesutil def=%v", g.name, o, g.def, x.def)
+			r.Fail("def-use-confusion:"+strings.Fields(g.desc)[0]+ctxOf[o], "identifier `%s` at offset %d: go/types def=%v, typesutil def=%v", g.name, o, g.def, x.def)
 		case x.desc != g.desc:
 			if c12SameModuloAliases(g.desc, x.desc) {
 				continue
